@@ -217,10 +217,29 @@ def crash_fail(name, impl):
     return [fail("prop", name + " crashed / exited on a valid request: " + tag(impl), impl[:200])]
 
 
+def _exe(ctx):
+    import glob, os
+    c = [p for p in glob.glob(os.path.join(ctx.get("libdir") or "", "hz_c14_*")) if not p.endswith(".tmp")]
+    return c[0] if c else None
+
+
+def _rerun(exe, rq):
+    import subprocess
+    p = subprocess.run([exe, "/dev/null"], input="0 %s\n" % rq, stdout=subprocess.PIPE, stderr=subprocess.PIPE, text=True, timeout=600)
+    for l in p.stdout.splitlines():
+        if l.startswith("0 "):
+            return l[2:].strip()
+    return "harness-no-answer"
+
+
 def compare(rq, impl, model, ctx):
     op = rq.split(" ", 1)[0]
     a = rq.split()[1:]
     bump(ctx, op)
+    if tag(impl) == "timeout" and _exe(ctx):
+        # the 20 s alarm of a forked child can fire on an overloaded machine: ask once more before believing it
+        impl = _rerun(_exe(ctx), rq)
+        bump(ctx, "timeout-retried")
     if op == "c14.hist":
         c = parse_call(a)
         ctx["nontrivial"].add((op, c["method"], c["d"], c["fid"]))
